@@ -206,10 +206,23 @@ def planeParamsFromPoints(pt1, pt2, pt3):
     # above (which are large for thin triangles and for points far from the
     # origin): the four quantities are evaluated exactly, with rational
     # numbers, and compared with the only uncertainty there is, the one of
-    # the coordinates themselves (a few units in the last place of each).
-    coords = [Fraction(float(x)) for pt in (pt1, pt2, pt3) for x in pt]
+    # the coordinates themselves (a few units in the last place of each),
+    # when they are the result of a computation.
+    #
+    # Numbers with at most fifteen significant digits are what the user
+    # typed (the shortest decimal that gives the same double): the rule is
+    # then applied to those very numbers, and "vanishes" means "is zero".
+    texts = [repr(float(x)) for pt in (pt1, pt2, pt3) for x in pt]
+    typed = all(len(text.split('e')[0].replace('-', '').replace('.', '')
+                    .strip('0')) <= 15 for text in texts)
+    if typed:
+        coords = [Fraction(text) for text in texts]
+    else:
+        coords = [Fraction(float(x)) for pt in (pt1, pt2, pt3) for x in pt]
     for func in (_plane_d, _plane_c, _plane_b, _plane_a):
         value, uncertainty = _with_uncertainty(func, coords)
+        if typed:
+            uncertainty = 0
         if value < -uncertainty:
             return flipped_params
         if value > uncertainty:
